@@ -17,6 +17,12 @@ LAYOUTS = [
     ([0, 1, 0, 1, 2], [2, 0, NAV, 0, 1]),
     ([5], [NAV]),
     ([0, 0, 1, 1, 1, 1], [3, 3, 1, 0, 1, 0]),
+    # a group of 20 rows with interleaved ties for the most common value (size-dependent sort kernels), one of 3
+    ([0] * 20 + [1] * 3, [2, 1, 3, 1, 2, 0, 2, 1, 3, 1, 2, 0, 3, 3, 0, 1, 2, 0, 3, 0, 2, 2, 1]),
+    # missing values interleaved with values, and a group with two missing values and one value
+    ([0, 0, 0, 0, 1, 1, 1, 2, 2, 2, 2], [NAV, 1, NAV, 1, NAV, NAV, 1, 2, NAV, 0, 2]),
+    # descending values inside groups (an in-place sort would be visible to a later order-sensitive helper)
+    ([0, 0, 0, 1, 1, 1, 1], [3, 2, 0, 2, 3, 1, 0]),
 ]
 FN = {"all": np.all, "any": np.any, "count": len, "max": np.amax, "mean": np.mean, "median": np.median,
       "min": np.amin, "std": np.std, "sum": np.sum, "var": np.var}
@@ -81,22 +87,32 @@ def norm(v):
 
 
 def run(call):
-    g, xs = LAYOUTS[call["layout"]]
+    g, xs = call["data"] if call.get("data") else LAYOUTS[call["layout"]]
     out = {"err": "", "numba": [], "python": [], "tn": "", "tp": "", "status": ""}
     try:
         d = di.DataFrame(g=di.Vector(g, int), x=column(call["kind"], xs))
         disp = dispatcher(call["h"])
         before = stats(disp)
+        h2 = call.get("h2", "")
+        def agg(frame):
+            kw = {"y": helper(call["h"], call["a"])}
+            if h2:
+                kw["z"] = helper(h2, call["a"])
+            return frame.deepcopy().group_by("g").aggregate(**kw)
         di.USE_NUMBA = True
         try:
-            rn = d.deepcopy().group_by("g").aggregate(y=helper(call["h"], call["a"]))
+            rn = agg(d)
         finally:
             di.USE_NUMBA = False
         after = stats(disp)
-        rp = d.deepcopy().group_by("g").aggregate(y=helper(call["h"], call["a"]))
+        rp = agg(d)
         out["numba"] = [norm(v) for v in rn.y]
         out["python"] = [norm(v) for v in rp.y]
         out["tn"], out["tp"] = rn.y.dtype.kind, rp.y.dtype.kind
+        if h2:
+            out["numba2"] = [norm(v) for v in rn.z]
+            out["python2"] = [norm(v) for v in rp.z]
+            out["tn2"], out["tp2"] = rn.z.dtype.kind, rp.z.dtype.kind
         if before and after:
             out["status"] = "reused" if after[0] == before[0] else ("loaded" if after[1] > before[1] else "compiled")
     except Exception as e:
